@@ -8,7 +8,8 @@ KymoTrackGroup._extract_dwelltime_data_from_groups / fit_binding_times on track 
 Model side: lean/Verif/Model/C15.lean through the compiled driver (`c15.*` ops).
 Oracle: plain NumPy (80-bit long double where available) written from the property text: the textbook truncated
 mixture density, its explicit sum / Gauss-Legendre quadrature, a 6th-order numerical gradient, the simplex and
-bound conditions, the closed-form one-component estimate, and the per-track rows of the extraction.
+bound conditions, the closed-form one-component estimate, the density of data pooled from several observation windows
+(count-weighted truncated densities, each on its own window) and its integral, and the per-track rows of the extraction.
 """
 import itertools
 import math
@@ -24,6 +25,7 @@ THEOREMS = [
     "Verif.C15.pdfCont_eq_spec",
     "Verif.C15.pmfDisc_eq_spec",
     "Verif.C15.continuous_integrates_to_one",
+    "Verif.C15.pooled_density_integrates_to_one",
     "Verif.C15.discrete_sums_to_one",
     "Verif.C15.discrete_sum_excluding_tmax_lt_one",
     "Verif.C15.relabel_invariant",
@@ -44,7 +46,9 @@ RULE = (
     "{0,1/4,1/2,1} for n<=3; extraction: every group of <=3 tracks over two kymographs of 4 and 3 lines, all four flag "
     "combinations) + seeded random streams: 'lik' (1-3 components, amplitudes on the simplex >=1e-3, lifetimes over 3 "
     "decades, scalar or per-observation (tmin,tmax,step), 1-2000 observations, continuous/discretised, tmax finite/inf, "
-    "windows from 0.05 to 100 lifetimes), 'fit' (DwelltimeModel on 20-2000 sampled dwell times), 'constraint' (random "
+    "windows from 0.05 to 100 lifetimes), 'fit' (DwelltimeModel on 20-2000 sampled dwell times; its pdf() is read inside, at the "
+    "edges of and just outside every observation window -- scalar limits and 2-3 different per-observation windows -- and "
+    "integrated over the union of the windows with panel boundaries at every window edge), 'constraint' (random "
     "masks/amplitudes incl. invalid), 'extract' (1-3 kymographs, <=12 tracks, tracks in the first/last line, zero-length "
     "tracks, missing minimum durations, directly and through fit_binding_times), 'validate' (malformed constructor "
     "arguments). Non-trivial: likelihood case with >=2 components or a finite/discretised window; fit; constraint with "
@@ -66,6 +70,10 @@ ASSUMPTIONS = [
     "nor catastrophic cancellation in the normalisation decides the comparison",
     "DwelltimeModel.pdf of the discretised model masks x >= tmax, i.e. it does not draw the bin of the largest "
     "observable dwell time; only its values inside the window are tied, its integral is asserted for the continuous model only",
+    "for data pooled from several observation windows the density pdf() has to report is read as the mixture of the "
+    "truncated densities of the individual windows weighted by their share of the dwell times, each zero outside its own "
+    "window (the density the per-observation likelihood is the likelihood of); single points on a window edge are tied to "
+    "the model only",
 ]
 
 LD = np.longdouble
@@ -349,6 +357,13 @@ def _impl(case):
                 elif what == "quad":
                     x, w = gl_nodes(to_f(case["tmin"]), to_f(case["tmax"]), list(taus))
                     out.append(enc_float(float(np.sum(w * np.sum(np.atleast_2d(m.pdf(x)), axis=0)))))
+                elif what == "pdfpool":
+                    x = np.array(pool_points(case), dtype=float)
+                    rows = np.atleast_2d(m.pdf(x))
+                    out.append("[" + ";".join(",".join(enc_float(v) for v in row) for row in rows) + "]")
+                elif what == "quadpool":
+                    x, w = pool_nodes(case, list(taus))
+                    out.append(enc_float(float(np.sum(w * np.sum(np.atleast_2d(m.pdf(x)), axis=0)))))
                 elif what == "mle1":
                     out.append(enc_float(taus[0]))
             except Exception as e:
@@ -439,6 +454,12 @@ def fit_layout(case):
         lay.append("pdf")
         if case["step"] is None:
             lay.append("quad")
+    # the support of the reported density: read inside, at the edges of and just outside every observation window; with
+    # per-observation limits it is the mixture of the truncated densities of the individual windows, each living on
+    # its own window, and integrates to one over their union
+    lay.append("pdfpool")
+    if not scalar_limits(case) and case["step"] is None:
+        lay.append("quadpool")
     if case["ncomp"] == 1 and case["step"] is None and not isinstance(case["tmax"], list) and to_f(case["tmax"]) == math.inf:
         lay.append("mle1")
     return lay
@@ -453,6 +474,59 @@ def pdf_points(case):
     d = to_f(case["step"])
     K = int(round((hi - tmin) / d))  # bins [tmin + k d, tmin + (k+1) d) with k < K lie below tmax
     return [tmin + (k + 0.5) * d for k in sorted({0, 1, K // 2, K - 1}) if 0 <= k <= K - 1]
+
+
+def pool_classes(case):
+    """distinct (tmin, tmax, step) triples of a data set with their counts, sorted"""
+    n = len(case["t"])
+    tmin, tmax = arr(case["tmin"], n), arr(case["tmax"], n)
+    step = None if case["step"] is None else arr(case["step"], n)
+    counts = {}
+    for i in range(n):
+        key = (float(tmin[i]), float(tmax[i]), None if step is None else float(step[i]))
+        counts[key] = counts.get(key, 0) + 1
+    return sorted(counts.items(), key=lambda kv: (kv[0][0], kv[0][1], kv[0][2] or 0.0))
+
+
+def pool_points(case):
+    """where the density of pooled data is read: for every set of limits points inside its window (for the
+    discretised model bin mid-points), the window edges themselves and points just outside of them -- a point inside
+    one window generally lies outside another one"""
+    pts = set()
+    tmax_data = max(case["t"])
+    for (lo, hi, d), _ in pool_classes(case):
+        top = hi if math.isfinite(hi) else lo + 3.0 * tmax_data
+        if d is None:
+            pts.update(lo + f * (top - lo) for f in (0.01, 0.5, 0.9))
+            pts.update([lo, top, lo * (1.0 - 1e-3), top * (1.0 + 1e-3)])
+            if lo > 0.0:
+                pts.add(0.5 * lo)
+        else:
+            K = int(round((top - lo) / d))
+            pts.update(lo + (k + 0.5) * d for k in {0, K // 2, K - 1, -1, K, K + 1} if lo + (k + 0.5) * d > 0)
+            pts.update([lo, top])
+    return sorted(x for x in pts if x >= 0.0 and math.isfinite(x))
+
+
+def pool_nodes(case, taus):
+    """Gauss-Legendre nodes and weights over the union of the observation windows, with panel boundaries at every
+    window edge (the pooled density jumps there)"""
+    edges = set()
+    unbounded = False
+    for (lo, hi, _), _ in pool_classes(case):
+        edges.add(lo)
+        if math.isfinite(hi):
+            edges.add(hi)
+        else:
+            unbounded = True
+    edges = sorted(edges)
+    segs = list(zip(edges, edges[1:])) + ([(edges[-1], math.inf)] if unbounded else [])
+    xs, ws = [], []
+    for a, b in segs:
+        x, w = gl_nodes(a, b, taus)
+        xs.append(x)
+        ws.append(w)
+    return np.concatenate(xs), np.concatenate(ws)
 
 
 # ------------------------------------------------------------------ ops
@@ -523,6 +597,14 @@ def ops(case):
             elif what == "quad":
                 x, w = gl_nodes(to_f(case["tmin"]), to_f(case["tmax"]), list(taus))
                 out.append(f"c15.quad {fl(amps)} {fl(taus)} {enc_float(to_f(case['tmin']))} {enc_float(to_f(case['tmax']))} {fl(x)} {fl(w)}")
+            elif what == "pdfpool":
+                st = "N" if case["step"] is None else fl(arr(case["step"], n))
+                out.append(f"c15.pdfpool {fl(amps)} {fl(taus)} {fl(pool_points(case))} {fl(arr(case['tmin'], n))} "
+                           f"{fl(arr(case['tmax'], n))} {st}")
+            elif what == "quadpool":
+                x, w = pool_nodes(case, list(taus))
+                out.append(f"c15.quadpool {fl(amps)} {fl(taus)} {fl(arr(case['tmin'], n))} {fl(arr(case['tmax'], n))} N "
+                           f"{fl(x)} {fl(w)}")
             elif what == "mle1":
                 out.append(f"c15.mle1 {fl(case['t'])} {fl(arr(case['tmin'], n))}")
         return out
@@ -601,6 +683,13 @@ def agree(case, i, ia, ma):
                     for r, q in zip(A, B)
                 )
             if what == "quad":
+                return close(dec_float(ia), dec_float(ma), 1e-9)
+            if what == "pdfpool":
+                A, B = dec_mat(ia), dec_mat(ma)
+                return len(A) == len(B) and all(
+                    len(r) == len(q) and all(close(x, y, 1e-9, 1e-300) for x, y in zip(r, q)) for r, q in zip(A, B)
+                )
+            if what == "quadpool":
                 return close(dec_float(ia), dec_float(ma), 1e-9)
             if what == "mle1":
                 # the optimiser's answer against the closed form: SLSQP stops at ftol=1e-6 on the likelihood
@@ -738,6 +827,31 @@ def oracle_fit(case, ia):
         total = dec_float(ia[lay.index("quad")])
         if not close(total, 1.0, 0.0, 1e-8):
             return f"normalised: DwelltimeModel.pdf integrates to {total!r} over the observation window"
+    if "quadpool" in lay:
+        total = dec_float(ia[lay.index("quadpool")])
+        if not close(total, 1.0, 0.0, 1e-8):
+            return (f"normalised: DwelltimeModel.pdf of data with per-observation limits integrates to {total!r} over "
+                    f"the observation windows")
+    if "pdfpool" in lay and case["step"] is None:
+        # the density of pooled data: every dwell time is drawn from the mixture truncated to ITS window, so the density
+        # is the count-weighted mean of the truncated densities, each one zero outside its own window
+        classes = pool_classes(case)
+        rows = dec_mat(ia[lay.index("pdfpool")])
+        edges = {v for (wlo, whi, _), _ in classes for v in (wlo, whi)}
+        safe = [max(a, 1e-300) for a in amps]
+        for j, x in enumerate(pool_points(case)):
+            if x in edges:
+                continue  # a single point of the window edge carries no probability; tied to the model only
+            got = sum(r[j] for r in rows)
+            ref = 0.0
+            with np.errstate(all="ignore"):
+                for (wlo, whi, _), cnt in classes:
+                    if wlo <= x < whi:
+                        ref += cnt / n * float(o_density(safe, taus, [x], [wlo], [whi], None)[0])
+            if not close(got, ref, 1e-8, 1e-300):
+                return (f"pooled-density: DwelltimeModel.pdf({x!r}) sums to {got!r} over the components; the truncated "
+                        f"mixture densities of the windows containing that point, weighted by their share of the data, "
+                        f"give {ref!r}")
     if "mle1" in lay and converged:
         closed = float(np.mean(t - tmin))
         target = min(max(closed, lo), hi)
@@ -1296,6 +1410,7 @@ def extra_coverage(results):
     slsqp = {}
     ext = {"kept-all": 0, "dropped-some": 0, "kept-none": 0, "error": 0, "via-fit": 0, "multi-kymo": 0, "first-or-last-line": 0}
     cons = {"one-free": 0, "several-free": 0, "all-fixed": 0, "error": 0}
+    pooled = {"fits-with-array-limits": 0, "several-distinct-windows": 0, "density-integrated": 0, "points-outside-some-window": 0}
     for r in results:
         c = r["case"]
         kinds[c["op"]] = kinds.get(c["op"], 0) + 1
@@ -1305,6 +1420,13 @@ def extra_coverage(results):
         if c["op"] == "fit" and " " in r["impl"][0]:
             st = r["impl"][0].split(" ")[-1]
             slsqp[st] = slsqp.get(st, 0) + 1
+        if c["op"] == "fit" and " " in r["impl"][0] and not scalar_limits(c):
+            cl = pool_classes(c)
+            pooled["fits-with-array-limits"] += 1
+            pooled["several-distinct-windows"] += len(cl) > 1
+            pooled["density-integrated"] += "quadpool" in fit_layout(c)
+            pooled["points-outside-some-window"] += sum(
+                1 for x in pool_points(c) if any(not (lo <= x < hi) for (lo, hi, _), _ in cl) and any(lo <= x < hi for (lo, hi, _), _ in cl))
         if c["op"] in ("lik", "fit"):
             k = len(c["amps"]) if c["op"] == "lik" else c["ncomp"]
             ncomp[f"{c['op']}-{k}"] = ncomp.get(f"{c['op']}-{k}", 0) + 1
@@ -1339,6 +1461,6 @@ def extra_coverage(results):
                 cons["several-free" if nfree >= 2 else ("all-fixed" if c["mask"] is not None and all(c["mask"][: c["n"]]) else "one-free")] += 1
     return {"case_kinds": kinds, "error_kinds": errs, "components": ncomp, "observations_per_case": nobs, "limits": limits,
             "windows": windows, "model_kind": model_kind, "slsqp_exit_of_fits": slsqp, "discrete_inf_sums_not_covering_support_skipped": uncovered,
-            "extraction": ext, "amplitude_constraint": cons, "exhaustive": False,
+            "extraction": ext, "amplitude_constraint": cons, "pdf_of_pooled_windows": pooled, "exhaustive": False,
             "exhaustive_note": "the small-scope streams enumerate their finite spaces completely; the random streams do not",
             "dropped_for_margin": dict(_DROPPED)}
